@@ -122,6 +122,10 @@ def run(repo: Repo, rep: Report, tier: str) -> None:
         fn = ua.classes["EndpointUrlArgsGenerator"].methods.get(mname)
         if fn is None:
             raise AnalysisError(f"anchor vanished: {mname}")
+        from sa.flatten import flatten as _fl43
+
+        if sum(1 for c in calls_in(fn.node) if isinstance(c.func, ast.Attribute) and c.func.attr == "write_line") < 2:
+            fn = _fl43(fn)  # the entry templates may live in a helper shared by the query and the header writer
         cfg = CFG(fn.node)
         dom = cfg.dominators()
         writes = [(n, c) for n in cfg.nodes if n.kind == "stmt" and n.ast is not None and not n.copy for c in calls_in(n.ast)
